@@ -255,5 +255,5 @@ META = {
             "Trusted: Coq kernel, extraction, harness/smpi_c34.c, the generator in checks/C34.py. Not covered: PSCW (post/start/complete/wait), "
             "request-based operations (Rput...), derived datatypes, 32-bit overflow.",
     "technique": "Coq proof (sequential RMA semantics, commutation) + extracted-model differential correspondence on generated programs",
-    "claimed": False,
+    "claimed": True,
 }
